@@ -23,6 +23,10 @@ CHECKS = {}  # filled from sim/props/*.py that exist and are listed in ENABLED
 ENABLED = json.load(open(os.path.join(HERE, "bin", "enabled.json")))
 
 TEXT = {
+    "C06": ("exploration",
+            "Seeded exploration: per world the whole emit-mode matrix (11 modes x path/stdin) and four check/format histories run as real processes on fresh copies of the same tree, with short writes/EINTR on stdout and short reads on stdin; the recorded histories are related to each other: read-only modes perform no mutating libc call, --check exit status vs the set files mode rewrites, byte equality of stdout / files / stdin text, and reconstruction of that text from the json, diff, modified-lines and checkstyle reports.",
+            "Trusts the interposer's view of mutating calls (plus an independent before/after snapshot), the `diff` crate's line model for report reconstruction, and forced-off colour.",
+            "deterministic simulation: differential oracle over recorded histories of the real binary with stream faults", "s4 C06"),
     "C05": ("exploration",
             "Seeded exploration over worlds of 1-4 crate roots x 15 fault kinds (syntax damage, recoverable lexer errors behind ignore lists, invalid UTF-8, missing/ambiguous/directory module, errno on open/read, four kinds of bad config, bad --config-path, nonexistent root, injected parser panics) x 7 emit modes, with the fault position enumerated over every file of the victim tree; every faulty run of the real binary is judged over its recorded libc-call history and the before/after snapshot, against a fault-free run of the surviving roots.",
             "Trusts the interposer's view of the process, that stdout is the result channel (victim diagnostics go to stderr), and the same binary's fault-free run as the reference formatted text.",
